@@ -24,7 +24,7 @@ from elementpath.namespaces import XSD_ANY_TYPE, XSD_ANY_SIMPLE_TYPE, XSD_ANY_AT
 from elementpath.namespaces import XSD_NAMESPACE, XPATH_MATH_FUNCTIONS_NAMESPACE
 from elementpath.datatypes import AnyAtomicType, AbstractDateTime, AnyURI, \
     DayTimeDuration, Date, DateTime, DecimalProxy, Duration, Integer, QName, \
-    Timezone, UntypedAtomic, AbstractQName
+    Timezone, UntypedAtomic, AbstractQName, AbstractBinary
 from elementpath.tdop import Token, MultiLabel
 from elementpath.helpers import ordinal, get_double
 from elementpath.xpath_context import XPathContext, XPathSchemaContext
@@ -586,6 +586,15 @@ class XPathToken(Token[ta.XPathTokenType]):
                     if isinstance(op2, UntypedAtomic):
                         yield str(op1), str(op2)
                         continue
+
+            if not isinstance(op1, UntypedAtomic) and not isinstance(op2, UntypedAtomic):
+                for cls in (bool, (int, float, decimal.Decimal), (str, AnyURI), AbstractQName,
+                            Duration, AbstractBinary, AbstractDateTime):
+                    if isinstance(op1, cls) or isinstance(op2, cls):
+                        if not isinstance(op1, cls) or not isinstance(op2, cls) or \
+                                cls in (AbstractBinary, AbstractDateTime) and op1.name != op2.name:
+                            raise TypeError(msg.format(type(op1), type(op2)))
+                        break
 
             yield self.implicit_timezone_operands(context, op1, op2)
 
